@@ -808,14 +808,21 @@ class WcSplit(Generic[AnyStr]):
         """Handle character group."""
 
         c = next(i)
-        if c == '!':
+        if c in ('!', '^'):
             c = next(i)
-        if c in ('^', '-', '['):
+        if c == '[':
+            # A POSIX class is a unit: its `]` does not close the sequence
+            i.match(RE_POSIX)
+            c = next(i)
+        elif c in ('-', ']'):
+            # A leading `-` or `]` is literal, as it is for the pattern parser
             c = next(i)
 
         try:
             while c != ']':
-                if c == '\\':
+                if c == '[':
+                    i.match(RE_POSIX)
+                elif c == '\\':
                     # Handle escapes
                     self._references(i, True)
                 elif c == '/':
